@@ -11,13 +11,15 @@ nix::DataType dtOf(const std::string &t) {
 nix::Variant val(const std::string &t, long code) {
     if (t == "Bool") return nix::Variant((bool) (code % 2));
     if (t == "Int32") return nix::Variant((int32_t) -code);
-    if (t == "UInt32") return nix::Variant((uint32_t) code);
+    if (t == "UInt32") return nix::Variant(code % 2 ? (uint32_t) (0xFFFFFFFFu - (uint32_t) code) : (uint32_t) code);
     if (t == "Int64") return nix::Variant(static_cast<int64_t>(code * 1000000007LL));
-    if (t == "UInt64") return nix::Variant((uint64_t) code);
+    if (t == "UInt64") return nix::Variant(code % 2 ? (uint64_t) (0xFFFFFFFFFFFFFFFFull - (uint64_t) code) : (uint64_t) code);
     if (t == "Double") return nix::Variant(0.5 * code);
     return nix::Variant(code == 0 ? std::string("") : (code % 2 ? std::string((size_t) code, 'x') : "\xc3\xa4v" + std::to_string(code)));
 }
-long stamp(long k, long r, long c) { return 10 * k + ((r + 3 * c) % 10); }
+// value code written by call k into cell (r, c); every third write after the first call writes the DEFAULT value (0 / "" / false)
+// explicitly, i.e. over whatever the cell holds
+long stamp(long k, long r, long c) { if (k >= 2 && (k + r + c) % 3 == 0) return 0; return 10 * k + ((r + 3 * c) % 10); }
 
 struct S {
     nix::File f; nix::Block b; nix::DataFrame df; std::string path;
@@ -30,13 +32,13 @@ struct S {
 
 template <typename T> std::vector<T> colVals(const std::string &t, const std::vector<long> &codes) { std::vector<T> v; for (long c : codes) v.push_back(val(t, c).get<T>()); return v; }
 
-void writeColumn(S &s, size_t ci, long off, const std::vector<long> &codes, bool byName) {
+void writeColumn(S &s, nix::DataFrame &D, size_t ci, long off, const std::vector<long> &codes, bool byName) {
     const std::string &t = s.types[ci];
-#define WC(T) { std::vector<T> v = colVals<T>(t, codes); if (byName) s.df.writeColumn(s.names[ci], v, (nix::ndsize_t) off); else s.df.writeColumn((unsigned) ci, v, (nix::ndsize_t) off); }
+#define WC(T) { std::vector<T> v = colVals<T>(t, codes); if (byName) D.writeColumn(s.names[ci], v, (nix::ndsize_t) off); else D.writeColumn((unsigned) ci, v, (nix::ndsize_t) off); }
     if (t == "Bool") { std::vector<bool> vb; for (long c : codes) vb.push_back(c % 2);
         // std::vector<bool> has no contiguous storage: write cell by cell through the column path of the row API instead
         // (highest row first, so that a stretch reaching past the last row fails before anything is written)
-        for (size_t i = codes.size(); i-- > 0;) s.df.writeCell((nix::ndsize_t) (off + (long) i), (unsigned) ci, val(t, codes[i])); }
+        for (size_t i = codes.size(); i-- > 0;) D.writeCell((nix::ndsize_t) (off + (long) i), (unsigned) ci, val(t, codes[i])); }
     else if (t == "Int32") WC(int32_t) else if (t == "UInt32") WC(uint32_t) else if (t == "Int64") WC(int64_t) else if (t == "UInt64") WC(uint64_t)
     else if (t == "Double") WC(double) else WC(std::string)
 #undef WC
@@ -123,9 +125,12 @@ bool observe(S &s, std::string &why) {
 std::string doStep(S &s, const json &st, long k) {
     std::string a = st["a"]; const json &v = st["v"];
     bool okExp = st["res"] == "ok";
+    // calls alternate (in pairs) between the handle kept since creation and a fresh look-up of the frame
+    nix::DataFrame fresh = ((k / 2) % 2) ? s.b.getDataFrame("df") : s.df;
+    nix::DataFrame &D = ((k / 2) % 2) ? fresh : s.df;
     if (a == "SetRows") {
         long n = v["n"];
-        std::string o = outcome([&] { s.df.rows((nix::ndsize_t) n); });
+        std::string o = outcome([&] { D.rows((nix::ndsize_t) n); });
         std::map<std::pair<long, long>, long> nc;
         for (long r = 0; r < n; r++) for (size_t c = 1; c <= s.modelCols; c++) nc[{r, (long) c}] = r < s.rows ? s.cell[{r, (long) c}] : 0;
         s.cell = nc; s.rows = n; return o;
@@ -134,7 +139,7 @@ std::string doStep(S &s, const json &st, long k) {
         long r = v["r"];
         std::vector<nix::Variant> row;
         for (size_t ci = 0; ci < s.types.size(); ci++) row.push_back(val(s.types[ci], ci < s.modelCols ? stamp(k, r, (long) ci + 1) : 0));
-        std::string o = outcome([&] { s.df.writeRow((nix::ndsize_t) r, row); });
+        std::string o = outcome([&] { D.writeRow((nix::ndsize_t) r, row); });
         if (okExp) for (size_t c = 1; c <= s.modelCols; c++) s.cell[{r, (long) c}] = stamp(k, r, (long) c);
         return o;
     }
@@ -145,14 +150,14 @@ std::string doStep(S &s, const json &st, long k) {
             // addressing of the cells: all by column index, all by name, or mixed (by call number)
             bool byIndex = (k % 3 == 0) || (k % 3 == 2 && (c % 2));
             if (byIndex) cells.push_back(nix::Cell{(unsigned) ci, val(s.types[ci], stamp(k, r, c))}); else cells.push_back(nix::Cell{s.names[ci], val(s.types[ci], stamp(k, r, c))}); }
-        std::string o = outcome([&] { if (cells.size() == 1 && cells[0].haveName() == false) s.df.writeCell((nix::ndsize_t) r, cells[0].col, cells[0]); else s.df.writeCells((nix::ndsize_t) r, cells); });
+        std::string o = outcome([&] { if (cells.size() == 1 && cells[0].haveName() == false) D.writeCell((nix::ndsize_t) r, cells[0].col, cells[0]); else D.writeCells((nix::ndsize_t) r, cells); });
         if (okExp) for (auto &cj : v["cols"]) s.cell[{r, cj.get<long>()}] = stamp(k, r, cj.get<long>());
         return o;
     }
     if (a == "WriteColumn") {
         long c = v["c"], off = v["off"], cnt = v["cnt"];
         std::vector<long> codes; for (long i = 0; i < cnt; i++) codes.push_back(stamp(k, off + i, c));
-        std::string o = outcome([&] { writeColumn(s, (size_t) c - 1, off, codes, k % 2 == 0); });
+        std::string o = outcome([&] { writeColumn(s, D, (size_t) c - 1, off, codes, k % 2 == 0); });
         if (okExp) for (long i = 0; i < cnt; i++) s.cell[{off + i, c}] = stamp(k, off + i, c);
         return o;
     }
